@@ -205,6 +205,8 @@ def build_direct_split(src):
     """SplitOptimProblem assembled by the caller from directly built interval problems."""
     import eaopack as eao
     ops = [build_direct(x) for x in src["parts"]]
+    if src.get("repeat_first_as_last") and len(ops) >= 2:
+        ops[-1] = ops[0]        # the caller lists one OptimProblem OBJECT twice (two periods with the same problem)
     maps = []
     off = 0
     for o in ops:
@@ -331,6 +333,10 @@ def gen_plan(rng, run_index, tier, opts):
     if rng.random() < 0.3:
         # the switch spelled as another true / false value: numpy bool from a comparison, 0 / 1
         plan["soft_spelling"] = rng.choice(["np", "int"])
+    if plan["source"]["kind"] == "direct_split" and rng.random() < 0.15:
+        pp_ = plan["source"]["parts"]
+        if len(pp_) >= 2 and bool(pp_[0]["bools"]) == bool(pp_[-1]["bools"]):
+            plan["source"]["repeat_first_as_last"] = True
     # (round 13, drawn last)
     if rng.random() < 0.12:
         plan["positional"] = True        # optimize(target, samples, interface, solver, make_soft_problem) by position
@@ -468,9 +474,10 @@ class Conversation:
 
     def _on_request(self, prob, kwargs, rec):
         k = rec["call"]
-        if k >= len(self.cur_ops):
+        if k >= len(self.cur_ops) and len(self.cur_ops) != 1:
             return
-        op = self.cur_ops[k]
+        # (a problem that is not split: every solve call of one optimize() - a retry, a relaxation first - is a request for that problem)
+        op = self.cur_ops[k] if k < len(self.cur_ops) else self.cur_ops[0]
         n = len(op.c)
         if getattr(self, "cur_target", "value") == "robust":
             # the auxiliary 'minimum DCF' variable is the one the objective consists of; x is the other one
